@@ -1,5 +1,6 @@
 import Driver.Pure
 import Driver.Seq
+import Driver.Trace
 /-
   Line-protocol driver: `driver pure|seq < ops > answers`.
 -/
@@ -31,12 +32,22 @@ partial def loopSeq (h : IO.FS.Stream) (out : IO.FS.Stream) (sys : Option Sys) :
       out.putStrLn o
       loopSeq h out (some s')
 
+partial def loopTrace (h : IO.FS.Stream) (out : IO.FS.Stream) (st : TraceSt) : IO Unit := do
+  let line ← h.getLine
+  if line.isEmpty then
+    out.putStrLn (caseEnd st)
+    return ()
+  let (st', o) := traceStep st line
+  out.putStrLn o
+  loopTrace h out st'
+
 def main (args : List String) : IO UInt32 := do
   let stdin ← IO.getStdin
   let stdout ← IO.getStdout
   match args with
   | ["pure"] => loopPure stdin stdout; return 0
   | ["seq"] => loopSeq stdin stdout none; return 0
+  | ["trace"] => loopTrace stdin stdout {}; return 0
   | _ =>
     IO.eprintln "usage: driver pure|seq"
     return 2
